@@ -8,7 +8,7 @@ From FA.Model Require Import Heap Stream.
 From FA.Proofs Require Import HeapFacts StreamFrame StreamExamples.
 From FA.Gen Require TablesCopy.
 From FA.Model Require CopyTree.
-From FA.Proofs Require CopyTreeFacts.
+From FA.Proofs Require CopyTreeFacts CopyTreeStore.
 Import ListNotations.
 Open Scope list_scope.
 Open Scope nat_scope.
@@ -69,6 +69,22 @@ Theorem lambda_copy_isolates_the_callers_tree : forall t n,
   forall i, In i (CopyTree.ids t) -> ~ In i (CopyTree.attached t) -> ~ In i (CopyTree.ids (fst (CopyTree.copy t n))).
 Proof. exact CopyTreeFacts.copy_isolates. Qed.
 Print Assumptions lambda_copy_isolates_the_callers_tree.
+
+(* what the isolation buys: in a store of node objects that holds the caller's tree, any number of writes of anything to the
+   objects the copy owns (reachable from the copy, not another stream's) leaves the caller's tree held as before, object for object *)
+Theorem edits_of_the_copy_keep_the_callers_tree : forall t n ws st,
+  (forall i, In i (CopyTree.ids t) -> i < n) ->
+  CopyTreeStore.holds st t ->
+  (forall j v, In (j, v) ws -> In j (CopyTree.ids (fst (CopyTree.copy t n))) /\ ~ In j (CopyTree.attached t)) ->
+  CopyTreeStore.holds (CopyTreeStore.writes st ws) t.
+Proof. exact CopyTreeStore.edits_of_the_copys_own_objects_keep_the_callers_tree. Qed.
+Print Assumptions edits_of_the_copy_keep_the_callers_tree.
+
+Example edits_of_the_copy_example :
+  CopyTreeStore.holds CopyTreeStore.ex_store CopyTreeFacts.ex_lambda /\
+  CopyTreeStore.holds (CopyTreeStore.writes CopyTreeStore.ex_store
+     [(12, ("Call", ["_old_ast"], [13; 17; 18])); (14, ("Call", [], [15; 19]))]%string) CopyTreeFacts.ex_lambda.
+Proof. exact CopyTreeStore.ex_store_holds. Qed.
 
 (* the test F52 shipped with (ANY non-field attribute keeps the node) hands the caller's own default-filled call on: refuted *)
 Theorem any_attribute_keep_test_refuted :
